@@ -533,7 +533,7 @@ func ruleRevisionSelection(c *Ctx, r4, r7 string) {
 	// new_stream carries the negotiated revision
 	if e := c.newStreamEmit(); e != nil {
 		v := e.Payload["NewStream.ProtocolRevision"]
-		c.check(v != nil && isFieldLoad(v, rev), r4, emitKey(w, e)+": carries the negotiated revision", w.At(e.Alloc), desc(v), "new_stream ProtocolRevision is "+desc(v)+", not the revision negotiated for this tunnel")
+		c.check(v != nil && isFieldLoadThrough(v, rev), r4, emitKey(w, e)+": carries the negotiated revision", w.At(e.Alloc), desc(v), "new_stream ProtocolRevision is "+desc(v)+", not the revision negotiated for this tunnel")
 	}
 }
 
@@ -547,24 +547,49 @@ func ruleSupportedRevisions(c *Ctx, rule string) {
 		return
 	}
 	got := map[string]string{}
-	forEachReturnValue(fn, 0, func(v ssa.Value, at ssa.Instruction) {
-		g := "unconditional"
-		for _, f := range boolFactsAt(at) {
-			if fr, _, ok := loadedField(f.V); ok && fr.Field == w.Roles().DisableFlag {
-				g = fmt.Sprintf("disabled=%v", f.True)
-			}
+	// the elements of a slice built from constants: a literal, or append(such a slice, constants...)
+	var sliceConsts func(v ssa.Value, depth int) ([]string, bool)
+	sliceConsts = func(v ssa.Value, depth int) ([]string, bool) {
+		if depth > 4 {
+			return nil, false
 		}
-		val := desc(v)
-		if sl, ok := v.(*ssa.Slice); ok {
-			if arr, ok := sl.X.(*ssa.Alloc); ok {
+		switch x := stripConv(v).(type) {
+		case *ssa.Slice:
+			if arr, ok := x.X.(*ssa.Alloc); ok && x.Low == nil && x.High == nil {
 				var ks []string
 				for _, e := range arrayStores(arr) {
 					ks = append(ks, desc(e))
 				}
-				val = "[" + strings.Join(ks, " ") + "]"
+				return ks, true
+			}
+		case *ssa.Call:
+			if calleeName(x) == "builtin.append" && len(x.Call.Args) == 2 {
+				a, okA := sliceConsts(x.Call.Args[0], depth+1)
+				b, okB := sliceConsts(x.Call.Args[1], depth+1)
+				if okA && okB {
+					return append(append([]string{}, a...), b...), true
+				}
 			}
 		}
-		got[g] = val
+		return nil, false
+	}
+	forEachReturnValue(fn, 0, func(v ssa.Value, at ssa.Instruction) {
+		for _, vc := range valueCases(v, 4) { // the alternatives merged at the return (`if !disabled { revs = append(revs, ONE) }`)
+			g := "unconditional"
+			for _, f := range append(boolFactsOf(vc.Facts), boolFactsAt(at)...) {
+				if fr, _, ok := loadedField(f.V); ok && fr.Field == w.Roles().DisableFlag {
+					g = fmt.Sprintf("disabled=%v", f.True)
+				}
+			}
+			val := desc(vc.Val)
+			if ks, ok := sliceConsts(vc.Val, 0); ok {
+				val = "[" + strings.Join(ks, " ") + "]"
+			}
+			if old, dup := got[g]; dup && old != val {
+				val = old + " | " + val
+			}
+			got[g] = val
+		}
 	})
 	c.check(got["disabled=true"] == "[0]", rule, w.Short(fn)+": disabled -> [ZERO]", posOf(w, fn), got["disabled=true"], "with flow control disabled the function returns "+got["disabled=true"]+", expected exactly [REVISION_ZERO]: a disabled endpoint would still negotiate flow control")
 	c.check(got["disabled=false"] == "[0 1]", rule, w.Short(fn)+": enabled -> [ZERO ONE]", posOf(w, fn), got["disabled=false"], "with flow control enabled the function returns "+got["disabled=false"]+", expected [REVISION_ZERO REVISION_ONE]")
@@ -785,6 +810,81 @@ func rulePick(c *Ctx, rule string) {
 			wrap = st
 		}
 	}
+	// local form: next := idx + 1; if next >= len(chans) { next = 0 }; idx = next; return chans[next]
+	var nextPhi *ssa.Phi
+	var nextStore *ssa.Store
+	if len(sts) == 1 {
+		if phi, isPhi := sts[0].Val.(*ssa.Phi); isPhi && len(phi.Edges) == 2 {
+			var incV *ssa.BinOp
+			incEdge, zeroEdge := -1, -1
+			for i, e := range phi.Edges {
+				if b, ok := e.(*ssa.BinOp); ok && b.Op == token.ADD && isFieldLoad(b.X, idx) {
+					if k, isK := constInt(b.Y); isK && k == 1 {
+						incV, incEdge = b, i
+					}
+				}
+				if k, isK := constInt(e); isK && k == 0 {
+					zeroEdge = i
+				}
+			}
+			if incV != nil && zeroEdge >= 0 && incEdge >= 0 {
+				edgeOK := func(i int, ops ...token.Token) bool {
+					pred := phi.Block().Preds[i]
+					facts := factsAt(pred.Instrs[len(pred.Instrs)-1])
+					if ef, has := edgeFact(pred, phi.Block()); has {
+						facts = append(facts, normFact(ef))
+					}
+					for _, f := range facts {
+						x, op, y, ok := cmpFact(f)
+						if !ok || x != ssa.Value(incV) {
+							continue
+						}
+						if lc, isC := y.(*ssa.Call); isC && calleeName(lc) == "builtin.len" && isFieldLoad(lc.Call.Args[0], chans) {
+							for _, o := range ops {
+								if op == o {
+									return true
+								}
+							}
+						}
+					}
+					return false
+				}
+				if edgeOK(zeroEdge, token.GEQ, token.EQL) && edgeOK(incEdge, token.LSS, token.NEQ) {
+					nextPhi, nextStore = phi, sts[0]
+				}
+			}
+		}
+	}
+	if nextPhi != nil {
+		c.ok(rule, "cursor advanced by exactly one", posOf(w, fn), "next := idx + 1, stored once")
+		c.ok(rule, "cursor wrapped to 0 at len", posOf(w, fn), "if next >= len(chans) { next = 0 } before the store")
+		var ia *ssa.IndexAddr
+		allInstrs(fn, func(in ssa.Instruction) {
+			if x, ok := in.(*ssa.IndexAddr); ok && isFieldLoad(x.X, chans) {
+				ia = x
+			}
+		})
+		okIdx := ia != nil && (ia.Index == ssa.Value(nextPhi) || (isFieldLoad(ia.Index, idx) && dominates(nextStore, ia)))
+		nonEmpty := false
+		if ia != nil {
+			for _, f := range factsAt(ia) {
+				if x, op, y, ok := cmpFact(f); ok {
+					if lc, isC := x.(*ssa.Call); isC && calleeName(lc) == "builtin.len" && isFieldLoad(lc.Call.Args[0], chans) {
+						if k, isK := constInt(y); isK && k == 0 && (op == token.NEQ || op == token.GTR) {
+							nonEmpty = true
+						}
+					}
+				}
+			}
+		}
+		c.check(okIdx && nonEmpty, rule, "returns the element at the cursor of a non-empty list", posOf(w, fn), "len(chans) != 0; return chans[next].ch", "the returned element is not chans[idx] read after the wrap on a list known to be non-empty: index out of range, or a tunnel skipped/repeated")
+		if ia != nil {
+			lf := w.Locks()
+			c.check(lf.MustAt(ia).has(regMu) && lf.MustAt(nextStore).has(regMu), rule, "one critical section", w.At(ia), "advance and read under the registry mutex", "the cursor advance and the element read are not both under the registry mutex")
+		}
+		c.pickCallers(rule)
+		return
+	}
 	c.check(inc != nil && len(sts) == 2, rule, "cursor advanced by exactly one", posOf(w, fn), "idx++", "the cursor is not advanced by exactly one per pick (n consecutive RPCs would not use each of n tunnels once)")
 	okWrap := false
 	if wrap != nil {
@@ -838,6 +938,12 @@ func rulePick(c *Ctx, rule string) {
 	if ia != nil && inc != nil {
 		c.check(lf.MustAt(ia).has(regMu) && lf.MustAt(inc).has(regMu), rule, "one critical section", w.At(ia), "advance and read under the registry mutex", "the cursor advance and the element read are not both under the registry mutex")
 	}
+	c.pickCallers(rule)
+}
+
+// pickCallers: the callers of pick turn nil into Unavailable, pass their arguments through and try exactly one tunnel.
+func (c *Ctx) pickCallers(rule string) {
+	w := c.W
 	// callers: nil -> Unavailable
 	for _, name := range []string{"(multiChannel).Invoke", "(multiChannel).NewStream"} {
 		m := w.roleFunc(name)
@@ -1240,6 +1346,9 @@ func ruleUnregisterAndCallbacks(c *Ctx, r6, r7 string) {
 	// callbacks
 	var open []*ssa.Call
 	var closeD []*ssa.Defer
+	// where the close callback is called: the deferred call itself, or the one call inside a private helper that is deferred
+	// (`defer s.notifyReverseTunnelDisconnect(ch)` with the nil test inside)
+	closeCall := map[*ssa.Defer]ssa.CallInstruction{}
 	allInstrs(ort, func(in ssa.Instruction) {
 		switch x := in.(type) {
 		case *ssa.Call:
@@ -1251,6 +1360,27 @@ func ruleUnregisterAndCallbacks(c *Ctx, r6, r7 string) {
 		case *ssa.Defer:
 			if fr, _, isF := loadedField(x.Call.Value); isF && fr.Field == ro.TSHOnDisconnect {
 				closeD = append(closeD, x)
+				closeCall[x] = x
+			} else if h := staticCallee(x); h != nil && w.isPrivateHelper(h) && w.soleSite(h) == ssa.CallInstruction(x) {
+				var inner []*ssa.Call
+				other := false
+				allInstrs(h, func(y ssa.Instruction) {
+					ci, isCI := y.(ssa.CallInstruction)
+					if !isCI {
+						return
+					}
+					if fr, _, isF := loadedField(ci.Common().Value); isF && fr.Field == ro.TSHOnDisconnect && staticCallee(ci) == nil {
+						if yc, isCall := y.(*ssa.Call); isCall && !inLoop(yc.Block()) {
+							inner = append(inner, yc)
+						} else {
+							other = true
+						}
+					}
+				})
+				if len(inner) == 1 && !other {
+					closeD = append(closeD, x)
+					closeCall[x] = inner[0]
+				}
 			}
 		}
 	})
@@ -1262,7 +1392,7 @@ func ruleUnregisterAndCallbacks(c *Ctx, r6, r7 string) {
 			}
 		}
 		// each guarded only by its own != nil
-		ok7 = ok7 && origin(open[0].Call.Args[0]) == origin(closeD[0].Call.Args[0])
+		ok7 = ok7 && origin(open[0].Call.Args[0]) == origin(closeCall[closeD[0]].Common().Args[0])
 	}
 	if ok7 {
 		// the open callback is guarded only by its own != nil: whatever else would skip it must skip the close callback too
@@ -1275,7 +1405,7 @@ func ruleUnregisterAndCallbacks(c *Ctx, r6, r7 string) {
 			}
 			if !isOwn {
 				guardsClose := false
-				for _, g := range boolFactsAt(closeD[0]) {
+				for _, g := range boolFactsAt(closeCall[closeD[0]]) {
 					if g.V == f.V && g.True == f.True {
 						guardsClose = true
 					}
@@ -1289,7 +1419,7 @@ func ruleUnregisterAndCallbacks(c *Ctx, r6, r7 string) {
 	if ok7 {
 		// the deferred close callback is registered exactly when it is configured: the only test in front of it that the
 		// open callback does not share is its own != nil
-		for _, f := range boolFactsAt(closeD[0]) {
+		for _, f := range boolFactsAt(closeCall[closeD[0]]) {
 			isOwn := false
 			if b, isB := f.V.(*ssa.BinOp); isB && isNilConst(b.Y) && b.Op == token.NEQ && f.True {
 				if fr, _, isF := loadedField(b.X); isF && fr.Field == ro.TSHOnDisconnect {
@@ -1319,7 +1449,7 @@ func ruleUnregisterAndCallbacks(c *Ctx, r6, r7 string) {
 			}
 		}
 		hasOwn := false
-		for _, f := range boolFactsAt(closeD[0]) {
+		for _, f := range boolFactsAt(closeCall[closeD[0]]) {
 			if b, isB := f.V.(*ssa.BinOp); isB && isNilConst(b.Y) {
 				if fr, _, isF := loadedField(b.X); isF && fr.Field == ro.TSHOnDisconnect {
 					hasOwn = true
